@@ -358,9 +358,9 @@ def judge(ti, lines, plain, deco, names, via_stdin, level, ps, dsx):
     # before a line marker, and then a neighbour is in another file
     if re.search(r'escape|UTF-8|out of range|multi-character|character constant', pmsg):
         lits = [(li, k) for li in vi for k, (a, b) in enumerate(lines[li].toks) if lines[li].text[b - 1] in '"\'' and b - a >= 2]
-        if len(lits) == 1:
-            if where != ('tok',) + lits[0]:
-                return viol('plain-token:' + text[:50], 'diagnostic about a literal (%s) is located at %d:%d, which is not the only literal of the violation: %s; template `%s`' % (pmsg[:40], pl, pc, ps[3][:160], text[:100]))
+        if lits:
+            if where is None or where[0] != 'tok' or tuple(where[1:]) not in lits:
+                return viol('plain-token:' + text[:50], 'diagnostic about a literal (%s) is located at %d:%d, which is not a literal of the violation: %s; template `%s`' % (pmsg[:40], pl, pc, ps[3][:160], text[:100]))
             rec['counts'].append(('plain-position', 'on-the-offending-literal'))
     # oracle 2 (decorated): same token, presumed location
     if dsx[1] is not None or dsx[2] or dsx[0] == 0:
